@@ -1141,6 +1141,8 @@ class COO(SparseArray, NDArrayOperatorsMixin):  # lgtm [py/missing-equals]
             raise ValueError(f"Invalid axis parameter: `{axis}`.")
 
         axis = tuple(d + self.ndim if d < 0 else d for d in axis)
+        if len(set(axis)) != len(axis):
+            raise ValueError("duplicate value in 'axis'")
 
         for d in axis:
             if d not in squeezable_dims:
